@@ -94,3 +94,15 @@ def _extremum(name):
 
 MODELS["arrmethod.max"] = _extremum("max")
 MODELS["arrmethod.min"] = _extremum("min")
+
+
+def _np_extremum(name):
+    inner = _extremum(name)
+
+    def f(eng, st, args, kwargs, line):
+        return inner(eng, st, args[:1], {}, line)
+    return f
+
+
+MODELS["numpy.max"] = _np_extremum("max")
+MODELS["numpy.min"] = _np_extremum("min")
